@@ -180,7 +180,7 @@ def stages(tier, sd, J, lat):
         J.direct(out, "hillclimb", D10, p, hc_limit(lim, D10), tag="seed")
     J.direct(out, "greedy", D10, drift=True, tag="seed")
     # --- random small sets (2-8 ranges, up to 6 time steps): lattice sizes and odd sizes
-    nsmall = 12000 if quick else 160000
+    nsmall = 9000 if quick else 160000
     for i in range(nsmall):
         k = rng.randrange(2, 9)
         r = alloc_driver.random_ranges(rng, k, rng.randrange(2, 7), "lattice" if i % 3 else "odd", ALIGNS)
@@ -213,7 +213,7 @@ def stages(tier, sd, J, lat):
         r = alloc_driver.random_ranges(rng, rng.randrange(20, 70), rng.randrange(10, 80), "big", ALIGNS)
         p, lim = HC_PARAMS[rng.randrange(3)]
         J.direct(out, "hillclimb", r, p, hc_limit(lim, r), tag="random-medium")
-    for i in range(8 * scale):
+    for i in range(4 if quick else 64):
         # the cost of one run grows with the square of the number of ranges (>= 500 iterations): 100-200 in quick
         r = alloc_driver.random_ranges(rng, rng.randrange(100, 201) if quick else rng.randrange(150, 301),
                                        rng.randrange(50, 300), "big", ALIGNS)
@@ -482,7 +482,52 @@ def main(tier):
     ctx = multiprocessing.get_context("fork")
     with ctx.Pool(10 if quick else 12, initializer=_init_worker, initargs=(common.REPO,)) as pool, \
             ThreadPoolExecutor(8 if quick else 10) as vex:
-        for name, jobs in stages(tier, sd, J, lat):
+        def finalize(pend):
+            """Collect the TLC verdicts of a stage whose records were validated while the next stage was replayed."""
+            nonlocal ndrift
+            name, records, meta, job_of, bs, futs, tlog = pend
+            outs = [f.result() for f in futs]
+            by_id = {r["t"]: r for r in records}
+            for (res, viol, drift), b in zip(outs, bs):
+                run.add_trace_run("AllocTrace[%s]" % name, res, len(b))
+                ndrift += len(drift)
+                for t in drift[:2]:
+                    if len(drift_examples) < 6:
+                        drift_examples.append({k: by_id[t][k] for k in ("alg", "r", "addr", "total")})
+                for t, cl in viol:
+                    nviol[cl] = nviol.get(cl, 0) + 1
+                    if len(run.violations) >= MAX_LISTED:        # every further one would only add a replay file
+                        continue
+                    r = dict(by_id[t], **meta[t])
+                    what = "%s: %s on %d ranges%s -> addr=%s total=%s iters=%s%s" % (
+                        cl, r["alg"], len(r["r"]), (" " + canon(r["r"])) if len(r["r"]) <= 12 else "",
+                        r["addr"] if len(r["r"]) <= 12 else "...", r["total"], r["iters"],
+                        (" raised " + r["raised"]) if r["raised"] else "")
+                    if "hillclimb" in r["alg"]:
+                        what += " (max_iterations=%s memory_limit=%s)" % (r["maxit"], r.get("limit"))
+                    if r["alg"].startswith("e2e"):
+                        what += " (cpu_tensor_alignment=%s)" % r.get("alignment")
+                    run.violation(key_of(cl, r), what, {"job": job_of[t], "record": r})
+            tlog["validated_after_s"] = round(time.time() - tlog.pop("t0"), 1)
+            stage_log.append(tlog)
+            if os.environ.get("VERIF_DEBUG"):
+                print("stage", tlog, file=sys.stderr)
+
+        def merged(gen):
+            """quick: one stage for the random inputs, one for all lattices (fewer TLC start-ups)."""
+            first, rest = None, []
+            for name, jobs in gen:
+                if first is None:
+                    first = (name, jobs)
+                    yield first
+                else:
+                    rest += jobs
+            if rest:
+                yield "lattices", rest
+
+        pending = None
+        gen = stages(tier, sd, J, lat)
+        for name, jobs in (merged(gen) if quick else gen):
             t0 = time.time()
             records = run_stage(pool, jobs, sd)
             t1 = time.time()
@@ -502,37 +547,18 @@ def main(tier):
                 s["max_ranges"] = max(s["max_ranges"], len(r["r"]))
                 s["max_iters"] = max(s["max_iters"], r["iters"])
                 ncompared += 1 if r["drift"] else 0
+            bs = batches(records, 8 if quick else 12)
+            futs = [vex.submit(validate, [dict(r) for r in b]) for b in bs]
             if not did_controls:
                 for r in records[:3] + [x for x in records if x["alg"].startswith("e2e")][:2]:
                     run.sample({k: r[k] for k in ("alg", "r", "addr", "total", "iters", "impr", "maxit", "raised")}
                                if len(r["r"]) <= 8 else {"alg": r["alg"], "ranges": len(r["r"]), "total": r["total"]})
                 negative_controls(run, records)
                 did_controls = True
-            bs = batches(records, 10 if quick else 12)
-            outs = list(vex.map(validate, [[dict(r) for r in b] for b in bs]))
-            by_id = {r["t"]: r for r in records}
-            for (res, viol, drift), b in zip(outs, bs):
-                run.add_trace_run("AllocTrace[%s]" % name, res, len(b))
-                ndrift += len(drift)
-                for t in drift[:2]:
-                    if len(drift_examples) < 6:
-                        drift_examples.append({k: by_id[t][k] for k in ("alg", "r", "addr", "total")})
-                for t, cl in viol:
-                    nviol[cl] = nviol.get(cl, 0) + 1
-                    if len(run.violations) >= MAX_LISTED:        # every further one would only add a replay file
-                        continue
-                    r = dict(by_id[t], **meta[t])
-                    what = "%s: %s on %d ranges%s -> addr=%s total=%s iters=%s%s" % (
-                        cl, r["alg"], len(r["r"]), (" " + canon(r["r"])) if len(r["r"]) <= 12 else "",
-                        r["addr"] if len(r["r"]) <= 12 else "...", r["total"], r["iters"],
-                        (" raised " + r["raised"]) if r["raised"] else "")
-                    if "hillclimb" in r["alg"]:
-                        what += " (max_iterations=%s memory_limit=%s)" % (r["maxit"], r.get("limit"))
-                    run.violation(key_of(cl, r), what, {"job": job_of[t], "record": r})
-            stage_log.append({"stage": name, "records": len(records), "replay_s": round(t1 - t0, 1),
-                              "validate_s": round(time.time() - t1, 1)})
-            if os.environ.get("VERIF_DEBUG"):
-                print("stage", stage_log[-1], file=sys.stderr)
+            if pending is not None:
+                finalize(pending)
+            pending = (name, records, meta, job_of, bs, futs,
+                       {"stage": name, "records": len(records), "replay_s": round(t1 - t0, 1), "t0": t1})
         # ---- conformance of the hill-climb transcription with the code (drift only)
         t0 = time.time()
         rng = random.Random(sd * 31 + 7)
@@ -542,6 +568,8 @@ def main(tier):
             p, lim = HC_PARAMS[rng.randrange(3)]
             sj.append(("steps", tuple(r), p, hc_limit(lim, r), t))
         traces = [ev for ch in pool.map(alloc_driver.run_jobs, list(_chunks(sj, 8)), chunksize=1) for ev in ch]
+        if pending is not None:
+            finalize(pending)
         groups, cur, n = [], [], 0
         for ev in traces:
             cur += ev
